@@ -395,6 +395,17 @@ def lockStake (b : Bal) (src : Addr) (stake : Nat) (registryOk : Bool) : Option 
   else if !registryOk then none
   else some (subBal b src stake).1
 
+/-- `ten = StrToBigInt("10")` of executor/miner_node_executor.go -/
+def nodeFee : Nat := 10000000000000000000
+
+/-- Ledger effect of `minerNodeExecutor.Execute` (OperatorNode, type 7): balance test against 10 RPG,
+    `SubBalance(owner, ten)` — credited to nobody — then the registry / main-node-contract steps
+    (`registryOk`); any later failure makes the caller revert. -/
+def nodeTx (b : Bal) (src : Addr) (registryOk : Bool) : Option Bal :=
+  if get b src < nodeFee then none
+  else if !registryOk then none
+  else some (subBal b src nodeFee).1
+
 /-- `RefundManager.CheckAndMove`: every (address, value) of the escrow list is credited. -/
 def refundMove (b : Bal) : List (Addr × Nat) → Bal
   | [] => b
@@ -406,6 +417,7 @@ inductive Tx where
   | operator (src : Addr) (dataOk : Bool) (targets : List (Addr × Amount))
   | contract (t : ContractTx)
   | lock (src : Addr) (stake : Nat) (registryOk : Bool)  -- miner apply / add-stake transactions (stake in wei)
+  | node (src : Addr) (registryOk : Bool)                -- OperatorNode transaction (type 7)
 
 /-- Block-scoped executor context: `context["gasUsed"]` is never cleared between transactions. -/
 structure Ctx where
@@ -434,6 +446,13 @@ def execTx (fuel : Nat) (w : World) : Tx → World × Status
     | none => (w, .failed)
     | some b1 =>
       match lockStake b1 src n registryOk with
+      | none => ({ w with st := { w.st with bal := b1 } }, .failed)
+      | some b2 => ({ w with st := { w.st with bal := b2 } }, .success)
+  | .node src registryOk =>
+    match processFee w.st.bal src with
+    | none => (w, .failed)
+    | some b1 =>
+      match nodeTx b1 src registryOk with
       | none => ({ w with st := { w.st with bal := b1 } }, .failed)
       | some b2 => ({ w with st := { w.st with bal := b2 } }, .success)
   | .contract t =>
